@@ -33,6 +33,7 @@ Section Hash.
     | EDivC a q => tup [5%Z; expr_hash a; hQ q]
     | EMin a b => tup [6%Z; expr_hash a; expr_hash b]
     | EMax a b => tup [7%Z; expr_hash a; expr_hash b]
+    | EDiv a b => tup [8%Z; expr_hash a; expr_hash b]
     end.
 
   (* hash((key, value)) and hash(FrozenDict) *)
